@@ -29,6 +29,19 @@ for k, v in BENIGN2.items():
 
 def jobs(only):
     out = []
+    if only and only.startswith("pairs:"):
+        # a file of lines "<seeded name> <ID> <ID> ...": those checks against that change
+        for l in open(only.split(":", 1)[1]):
+            f = l.split()
+            if f:
+                out.append(("matrix", f[0], V + "/seeded/" + f[0] + "/patch.diff", f[1:], False))
+        return out
+    if only and only.startswith("matrix:"):
+        # every check against each of the named seeded changes: which OTHER checks report it?  (a report by a check
+        # whose statement the change does not violate would be a false alarm of that check)
+        for name in only.split(":", 1)[1].split(","):
+            out.append(("matrix", name, V + "/seeded/" + name + "/patch.diff", ["C%02d" % i for i in range(1, 21)], False))
+        return out
     if only in (None, "seeded"):
         for d in sorted(glob.glob(V + "/seeded/*")):
             m = json.load(open(d + "/meta.json"))
